@@ -163,7 +163,7 @@ CHECKS["C13"] = dict(category="model_checking",
 _BISYNC = ("link universe (one version materialised as a symbolic link), long histories with links and scripted 'file becomes a directory' "
            "histories, pair scenarios (adversarially close names, relative spelling of a missing root, symlinked root re-pointed, "
            "BLAKE3 tie between a file and a link with the roots swapped), archive faults incl. missing version / pair members, "
-           "malformed entries a valid document followed by trailing bytes, and a dry run on every damaged archive")
+           "malformed entries a valid document followed by trailing bytes, a stale archive of the same roots in the other order, and a dry run on every damaged archive")
 _ONEWAY = ("file/directory clashes both ways, destination-only directories with excluded files, leftover staging files, a missing "
            "destination root, a name that is not UTF-8, mtimes before 1970 and in the future, symlinked source files, directed "
            "'?' cases against multi-byte names, an induced transport failure at the remote delete, a dangling link and a link loop in source and/or destination; hard-linked destination names; verdicts never rest on printed "
@@ -182,8 +182,8 @@ ADDENDA = {
     "C11": "names that a cleaning step would turn into '..' or an absolute path (NUL, blanks, line ends, per-cent escapes, full-width dots); very long refused paths (plain, control characters, backslashes, 2/3/4-byte characters at every alignment), names that contain backslashes and dots; 'refused' is recognised by effect, not by the reply's wording",
     "C12": "frames longer than their CBOR item (zero filler, a complete request as filler), such frames closed inside the filler, a Put under a path that is a file (request fails, session goes on), refused paths of multi-byte characters, staging files of dead servers in the served tree, a Put longer than its input; time-outs are re-checked with a longer limit before they count",
     "C13": "a name that sorts before a directory's entries as a string and after them as a path, names with a backslash, a non-UTF-8 name (unsendable trees), a file named like another name's directory (blocked runs), a hub root containing colons, scripted clash histories and scripted stale-listing windows with a file/directory clash (known finding H26 for the clashing file only); run-failed labels are reports, not alarms; the check refuses to pass when no race could be produced",
-    "C16": "a zero block and a block tuned to byte sum m*65521, each reached by sliding; a 24 MiB run of new data before a known tail (thorough); engine / signature block-size mismatch at the library level",
-    "C17": "marathon runs of 26-70 million consecutive slides judged at checkpoints by RollingTrace!New",
+    "C16": "a zero block and a block tuned to byte sum m*65521, each reached by sliding; multi-MiB sources whose matches all sit off the block grid; first matches just before and just after a normalisation point; a 24 MiB run of new data before a known tail (thorough); engine / signature block-size mismatch at the library level",
+    "C17": "5003 consecutive slides at windows 65536 / 65535 / 56000 / 32768; marathon runs of 26-70 million consecutive slides judged at checkpoints by RollingTrace!New",
     "C18": "name sets whose byte order differs from their path order, and one of names that look like staging files, conflict-copies and dot-files; tree results compared as sets",
     "C19": "as C18 for the planner; listing timestamps at .999999999",
     "C20": "every case also decoded through short reads; hostile copy offsets, block sizes valid in their low half only; 'malformed beyond argument => exit 1' is a Monitor clause",
